@@ -223,9 +223,22 @@ def rule_shape(ctx, res):
             return 'last'
         return fmt(r)
 
-    tab = Table.build(s.complete_paths(), classify, outcome)
-    bad, n = tab.compare({'ideal_lt_n': BOOL}, lambda v: 'ideal' if v['ideal_lt_n'] else 'last')
-    res.check(not bad, 'TABLE', b.path, 'placement: shared-prefix length if that bucket exists, else the last bucket', detail=str(bad[:2]))
+    # `min(shared prefix, n - 1)` is the same function written without a branch
+    cps0 = s.complete_paths()
+    as_min = False
+    if len(cps0) == 1 and not cps0[0].conds:
+        r0 = strip_transparent(cps0[0].ret)
+        if r0[0] == 'call' and r0[1].split('::')[-1] == 'min' and len(r0[2]) == 2:
+            x, y = strip_transparent(r0[2][0]), strip_transparent(r0[2][1])
+            for u, v in ((x, y), (y, x)):
+                if is_param(u, 'num_same_bits') and v[0] == 'bin' and v[1] == 'Sub' and is_param(strip_transparent(v[2]), 'num_buckets') and term_int(v[3]) == 1:
+                    as_min = True
+    if as_min:
+        res.ok('TABLE', b.path, 'placement: shared-prefix length if that bucket exists, else the last bucket')
+    else:
+        tab = Table.build(cps0, classify, outcome)
+        bad, n = tab.compare({'ideal_lt_n': BOOL}, lambda v: 'ideal' if v['ideal_lt_n'] else 'last')
+        res.check(not bad, 'TABLE', b.path, 'placement: shared-prefix length if that bucket exists, else the last bucket', detail=str(bad[:2]))
     # can_split_bucket <=> index == n-1 && index != MAX_BUCKETS-1
     b = ctx.body('table::can_split_bucket')
     res.touch(b)
@@ -292,7 +305,13 @@ def rule_shape(ctx, res):
             continue
         if p.end == 'diverge':
             continue
-        if len(pops) != 1 or len(pushes) != 2 or any(strip_transparent(x[2][1])[1] != 'bucket::Bucket::new' for x in pushes):
+        # two fresh buckets appended: two `push(Bucket::new())` or one `extend([Bucket::new(), Bucket::new()])`
+        exts = [e for e in p.effects if e[0] == 'call' and e[1] and e[1].split('::')[-1] == 'extend' and field_chain(strip_transparent(e[2][0])) == ['buckets']]
+        two_new = len(pushes) == 2 and not exts and all(strip_transparent(x[2][1])[1] == 'bucket::Bucket::new' for x in pushes)
+        if not two_new and len(exts) == 1 and not pushes:
+            arr = strip_transparent(exts[0][2][1])
+            two_new = isinstance(arr, tuple) and arr[0] == 'array' and len(arr[1]) == 2 and all(strip_transparent(x)[0] == 'call' and strip_transparent(x)[1] == 'bucket::Bucket::new' for x in arr[1])
+        if len(pops) != 1 or not two_new:
             ok = False
         if p.end == 'loop':
             seen_loop = True
@@ -307,7 +326,7 @@ def rule_shape(ctx, res):
                 pl = pipeline(it)
                 src = pl[0][1]
                 # the whole popped bucket, no adaptor that could skip a node
-                if any(x[0] not in ('iter', 'into_iter') for x in pl[1:]) or not find_calls(src, '::pop'):
+                if any(x[0] not in ('iter', 'into_iter', 'cloned', 'copied') for x in pl[1:]) or not find_calls(src, '::pop'):
                     ok = False
         if p.end == 'return' and term_int(p.ret) != 1:
             ok = False
